@@ -34,6 +34,8 @@ CAUGHT = {
     "C06-m5": ["C06 quick"], "C06-m6": ["C06 quick"],
     "C08-m4": ["C08 quick (after the F-POS-4 attribution was narrowed to tokens of different extent; it reverts fix 062657e)"],
     "C08-m5": ["C08 quick"], "C08-m6": ["C08 quick"],
+    "C01-m4": ["C01 quick (sentence rejected)", "C05 quick (validator)"], "C01-m5": ["C01 quick (GLR model differs from GLRParser; no failing input inside the quick scope)", "C02 quick"],
+    "C01-m6": ["C01 quick (tree not covering the input; non-sentence accepted)"],
     "C02-m4": ["C02 quick (GLR model differs; derivations missing outside the fingerprinted set)"], "C02-m5": ["C02 quick"], "C02-m6": ["C02 quick (SLR tables)", "C05 quick"],
     "C03-m4": ["C03 quick"], "C03-m5": ["C03 quick (top indices of forests with more than 2^53 trees)"],
     "C03-m6": ["C03 quick (after deep list forests were added to the big unit)"],
